@@ -46,6 +46,7 @@ type schedMsg struct {
 
 type Task struct {
 	ID        int
+	g         uintptr // identity of the task's goroutine (getg)
 	resume    chan struct{}
 	fn        func(t *Task)
 	quantum   int
@@ -147,15 +148,14 @@ func (s *Sched) stepHook(site int32) {
 	if s.dying {
 		return // tasks are being released at the end of the run (deferred library code may still execute)
 	}
-	if s.sleeping {
-		s.Foreign = true
-		runtime.Goexit()
-	}
-	s.Steps++
 	t := s.cur
-	if t == nil {
+	if t == nil || getg() != t.g {
+		// a goroutine the library started itself (a janitor, a timed hand-off): it runs outside the
+		// scheduler, un-instrumented in effect. The oracles that judge task events stay sound; what it
+		// may not do is wait for a cooperative lock (lockBlocked)
 		return
 	}
+	s.Steps++
 	t.own++
 	t.lastSite = site
 	t.quantum--
@@ -213,14 +213,16 @@ func (s *Sched) lockBlocked() {
 		runtime.Gosched()
 		return
 	}
-	if s.sleeping {
-		s.Foreign = true
-		runtime.Goexit()
-	}
 	t := s.cur
 	if t == nil {
 		runtime.Gosched()
 		return
+	}
+	if getg() != t.g {
+		// a library-owned goroutine waits for a lock that a parked task may hold: it would spin while
+		// simulated time cannot advance. Not representable: stop it and mark the run.
+		s.Foreign = true
+		runtime.Goexit()
 	}
 	t.handoff(schedMsg{kind: mLockWait, site: t.lastSite})
 }
@@ -234,14 +236,14 @@ func (t *Task) BlockUntil(cond func() bool, wake func() uint64) {
 
 //go:norace
 func (s *Sched) lockTaken() {
-	if t := s.cur; t != nil && !s.dying && !s.sleeping {
+	if t := s.cur; t != nil && !s.dying && getg() == t.g {
 		t.locksHeld++
 	}
 }
 
 //go:norace
 func (s *Sched) lockReleased() {
-	if t := s.cur; t != nil && !s.dying && !s.sleeping && t.locksHeld > 0 {
+	if t := s.cur; t != nil && !s.dying && getg() == t.g && t.locksHeld > 0 {
 		t.locksHeld--
 	}
 }
@@ -255,7 +257,7 @@ func (s *Sched) onceEnter() {
 		return
 	}
 	t := s.cur
-	if t == nil {
+	if t == nil || getg() != t.g {
 		return
 	}
 	for s.onceOwner != nil && s.onceOwner != t {
@@ -270,6 +272,9 @@ func (s *Sched) onceEnter() {
 
 //go:norace
 func (s *Sched) onceExit() {
+	if t := s.cur; t == nil || getg() != t.g {
+		return
+	}
 	if s.onceOwner == s.cur && s.onceDepth > 0 {
 		s.onceDepth--
 		if s.onceDepth == 0 {
@@ -288,6 +293,7 @@ func (t *Task) Yield() {
 //go:norace
 func (t *Task) run() {
 	defer t.s.wg.Done()
+	t.g = getg()
 	raceOff()
 	<-t.resume
 	raceOn()
